@@ -460,6 +460,114 @@ Ltac wp_step leaf call :=
   end.
 Ltac wp leaf call := repeat wp_step leaf call.
 
+Ltac prep :=
+  repeat match goal with
+  | H : bool_decide _ = false |- _ => apply bool_decide_eq_false in H
+  | H : bool_decide _ = true |- _ => apply bool_decide_eq_true in H
+  | H : negb _ = false |- _ => apply negb_false_iff in H
+  | H : negb _ = true |- _ => apply negb_true_iff in H
+  | H : ¬ is_Some _ |- _ => apply eq_None_not_Some in H
+  | H : svc_by_cookie _ _ = Some (_, _) |- _ => apply svc_by_cookie_Some in H as [H ?]
+  | H : obj_by_cookie _ _ = Some (_, _) |- _ => apply obj_by_cookie_Some in H as [H ?]
+  end.
+
+(* ---------------------------------------------------------------- one step, in two halves *)
+Definition m_init (s : state) : M := {| ms := s; mw := work0; mo := [] |}.
+Definition queue_all (s : state) : M :=
+  foldr (fun p m => push_remove m p.1 true) (m_init s) (map_to_list (conns s)).
+Definition new_conn (s : state) (c : conn) (ver : N) : state :=
+  s <| conns ::= <[c := {| cs_ver := ver; cs_alive := true; cs_calls := ∅ |}]> |> <| st; n_conns ::= N.succ |>.
+Definition drop_task (s : state) (c : conn) : state :=
+  match conns s !! c with
+  | Some cs => s <| conns ::= <[c := cs <| cs_alive := false |>]> |>
+  | None => s
+  end.
+
+(* the event-specific part of [step], before the work loop runs *)
+Definition step_pre (s : state) (e : event) (fresh : uuid) (bserial : option N) : outcome M :=
+  match e with
+  | NewConnection c ver =>
+      match conns s !! c with Some _ => Panic 40 | None => Done (m_init s <| ms := new_conn s c ver |>) end
+  | ConnectionShutdown c => Done (push_remove (m_init s) c false)
+  | Message c x =>
+      match handle (m_init s) c x fresh bserial with
+      | Done m => Done m
+      | Fail m => Done (push_remove m c false)
+      | Panic site => Panic site
+      end
+  | ShutdownBroker => Done (queue_all s <| ms; shutdown_now := true |>)
+  | ShutdownIdleBroker => Done (m_init s <| ms; shutdown_idle := true |>)
+  | ShutdownConnection c => Done (push_remove (m_init s) c true)
+  | DropTask c => Done (m_init s <| ms := drop_task s c |>)
+  end.
+
+Lemma step_eq s e fresh bserial :
+  step s e fresh bserial =
+  match step_pre s e fresh bserial with
+  | Done m | Fail m =>
+      match settle (fuel_for (ms m)) m with
+      | Done m' | Fail m' => Done (ms m', mo m')
+      | Panic site => Panic site
+      end
+  | Panic site => Panic site
+  end.
+Proof.
+  destruct e; try reflexivity.
+  - unfold step, step_pre. destruct (conns s !! c); reflexivity.
+  - unfold step, step_pre, drop_task. destruct (conns s !! c); reflexivity.
+Qed.
+
+Lemma queue_all_ms s : ms (queue_all s) = s.
+Proof.
+  unfold queue_all. apply (foldr_inv (fun m => ms m = s)); [|reflexivity]. intros m x _ Hm. exact Hm.
+Qed.
+Lemma queue_all_mo s : mo (queue_all s) = [].
+Proof.
+  unfold queue_all. apply (foldr_inv (fun m => mo m = [])); [|reflexivity]. intros m x _ Hm. exact Hm.
+Qed.
+
+(* a step's result comes out of [settle] run on the result of [step_pre] *)
+Lemma step_inv s e fresh b s' o :
+  step s e fresh b = Done (s', o) ->
+  exists m m', step_pre s e fresh b = Done m /\ settle (fuel_for (ms m)) m = Done m' /\
+               s' = ms m' /\ o = mo m'.
+Proof.
+  rewrite step_eq. destruct (step_pre s e fresh b) as [m|m|?] eqn:E; [| |discriminate].
+  - destruct (settle _ m) as [m'|m'|?] eqn:E2; [| |discriminate]; intros [= <- <-].
+    + eauto 10.
+    + exfalso. revert E2. generalize (fuel_for (ms m)). intros fuel. revert m E.
+      induction fuel as [|fuel IH]; intros m _; rewrite settle_unfold;
+        destruct (settle_one m) as [[?|?|?]|]; try discriminate; eauto.
+  - exfalso. destruct e; cbn in E; try discriminate.
+    + destruct (conns s !! c); discriminate.
+    + destruct (handle _ _ _ _ _); discriminate.
+Qed.
+
+(* state predicates through a step *)
+Lemma step_sp (Q : state -> Prop) s e fresh b s' o :
+  (forall fuel m, Q (ms m) -> res (SP Q) never (settle fuel m)) ->
+  (forall c x, e = Message c x -> res (SP Q) (SP Q) (handle (m_init s) c x fresh b)) ->
+  (forall c ver, e = NewConnection c ver -> conns s !! c = None -> Q (new_conn s c ver)) ->
+  (e = ShutdownBroker -> Q (s <| shutdown_now := true |>)) ->
+  (e = ShutdownIdleBroker -> Q (s <| shutdown_idle := true |>)) ->
+  (forall c, e = DropTask c -> Q (drop_task s c)) ->
+  Q s -> step s e fresh b = Done (s', o) -> Q s'.
+Proof.
+  intros Hsettle Hh Hn Hsb Hsi Hd HQ Hstep.
+  apply step_inv in Hstep as (m & m' & Hpre & Hs & -> & _).
+  assert (Q (ms m)) as Hm.
+  { destruct e; cbn in Hpre.
+    - destruct (conns s !! c) eqn:E; [discriminate|]. injection Hpre as <-. cbn. eauto.
+    - injection Hpre as <-. exact HQ.
+    - specialize (Hh c m0 eq_refl). destruct (handle _ _ _ _ _); cbn in Hh; [| |discriminate];
+        injection Hpre as <-; exact Hh.
+    - injection Hpre as <-. cbn. rewrite queue_all_ms. auto.
+    - injection Hpre as <-. cbn. auto.
+    - injection Hpre as <-. exact HQ.
+    - injection Hpre as <-. cbn. auto. }
+  specialize (Hsettle (fuel_for (ms m)) m Hm). rewrite Hs in Hsettle. exact Hsettle.
+Qed.
+
 (* keep the machine's functions folded under cbn; they are unfolded explicitly *)
 Global Arguments send : simpl never.
 Global Arguments send_or_remove : simpl never.
